@@ -83,7 +83,7 @@ pub fn property(id: &str) -> Option<PropertySpec> {
             id: "C08",
             rule: search::C08_RULE,
             assumptions: vec![ORACLE, SETUP, CAP, "leaf values come from the engine's public evaluate::board_material_score and mate scores from evaluate::score on canonical mated boards, so retuning the evaluation does not raise an alarm (C18 owns the evaluation's laws)"],
-            checks: vec![Box::new(search::C08Searches)],
+            checks: search::c08_checks(),
         },
         "C09" => PropertySpec {
             id: "C09",
